@@ -21,6 +21,17 @@ CLAIMED = {
         design='4/C07'),
 }
 
+CLAIMED['C06'] = dict(
+    text='Contract proof, for each ordered pair of channel models, of the channel_converter_unsigned body that g++ selects '
+         '(dispatch read from the real class hierarchy), the signed shift functors and channel_converter::operator(): '
+         'min->min, max->max, in range, less than one destination unit from the exact linear map (float32 tolerance where a '
+         'float/32-bit channel is involved), monotone, and round trip through a channel with at least as many levels. '
+         'Quick: 32 pairs over u8/u16/u32/i8/i16/i32/f32/packed; thorough: all 9x9 pairs plus packed widths.',
+    note=TRUST + 'Generic double converter and the uintmax_t specialisation are never selected for provided models (not verified). '
+         'Float<->16/32-bit pairs are proved only in the thorough tier.',
+    technique='function contracts on the extracted real bodies; integer pairs by integer-theory VCs (z3 5.1), double/float bodies by CBMC DFCC contract enforcement; two-point lemmas over the bodies',
+    design='4/C06')
+
 NOT_APPLICABLE = {
     'C12': 'relates two whole template pipelines through a file/stream and external C libraries; no function contract within reach of a C verifier states what read_image returns after write_view (DESIGN 5)',
     'C13': 'equality of results of different compositions of reader classes/devices/policies over the same bytes is a relational property over I/O histories, not a pre/postcondition of an extractable function (DESIGN 5)',
